@@ -1,8 +1,10 @@
-/-! GENERATED by props/c05.py `buf_generated` from esl_buffer.c / esl_buffer.h of the working tree — do not edit. -/
+/-! Which `buffer_refill` the model is (hand-written since fix 188d0b6 landed; it was regenerated from the working tree while the repair
+was pending, and every proof about `refill` is independent of the value). -/
 namespace EaselModel.Buffer.BufConsts
 
 /-- `buffer_refill` under a stable anchor never shifts the window and retires the old block instead of `ESL_REALLOC`ing it
-    (fix C05-stable-anchor-keep-oldmem: fields `stable`, `retired`, `nretired` of ESL_BUFFER): true = the repaired code -/
-def stableRetire : Bool := false
+    (fix 188d0b6, C05-stable-anchor-keep-oldmem: fields `stable`, `retired`, `nretired` of ESL_BUFFER). `false` selects the
+    code before the repair (`Model.refill0` is that variant, unconditionally). -/
+def stableRetire : Bool := true
 
 end EaselModel.Buffer.BufConsts
